@@ -6040,7 +6040,7 @@ impl Machine {
                     }
                     &Instruction::ExecuteUnattributedVar => {
                         self.machine_st.unattributed_var();
-                        self.machine_st.p = self.machine_st.cp;
+                        step_or_fail!(self.machine_st, self.machine_st.p = self.machine_st.cp);
                     }
                     &Instruction::CallGetDBRefs => {
                         self.get_db_refs();
